@@ -14,7 +14,9 @@ import (
 	"errors"
 	"io"
 	"net"
+	"fmt"
 	"net/http"
+	"os"
 	"strings"
 	"sync"
 	"time"
@@ -36,6 +38,15 @@ func (w *vfWorld) front(h http.Handler, addr string) *vfFront {
 			r.Header.Del("X-Vf-Tls")
 			r.TLS = &tls.ConnectionState{}
 		}
+		r.Body = &vfSpyReqBody{ReadCloser: r.Body, w: w}
+		if os.Getenv("VF_DEBUG") != "" {
+			defer func() {
+				if rec := recover(); rec != nil {
+					fmt.Fprintf(os.Stderr, "VF-DEBUG handler aborted: %v; request ctx err=%v cause=%v at %v\n", rec, r.Context().Err(), context.Cause(r.Context()), w.now())
+					panic(rec)
+				}
+			}()
+		}
 		h.ServeHTTP(rw, r)
 	})
 	f.srv = &http.Server{Handler: wrapped}
@@ -44,6 +55,26 @@ func (w *vfWorld) front(h http.Handler, addr string) *vfFront {
 	w.fronts = append(w.fronts, f)
 	w.mu.Unlock()
 	return f
+}
+
+type vfSpyReqBody struct {
+	io.ReadCloser
+	w *vfWorld
+	n int
+}
+
+func (b *vfSpyReqBody) Read(p []byte) (int, error) {
+	n, err := b.ReadCloser.Read(p)
+	b.n += n
+	if err == http.ErrBodyReadAfterClose {
+		// net/http (HTTP/1) closes the request body at the first write of the response; the proxy's transport
+		// was still reading it
+		b.w.reqBodyClosed.Store(true)
+	}
+	if err != nil && err != io.EOF && os.Getenv("VF_DEBUG") != "" {
+		fmt.Fprintf(os.Stderr, "VF-DEBUG inbound request body read error after %d bytes: %T %v\n", b.n, err, err)
+	}
+	return n, err
 }
 
 type vfRawResp struct {
@@ -177,6 +208,7 @@ type vfRawTarget struct {
 	idx     int
 	seen    []*vfRawSeen
 	probeOK bool
+	thinkMs     int // the target starts answering this long after it has the whole request (default 1 ms)
 	acceptClose int // close this many non-probe connections right after accepting them
 	conns       map[*vfConn]struct{}
 }
@@ -206,7 +238,7 @@ func (w *vfWorld) rawTarget(name string) *vfRawTarget {
 	if _, _, err := net.SplitHostPort(addr); err != nil {
 		addr += ":80"
 	}
-	rt := &vfRawTarget{name: name, w: w, probeOK: true}
+	rt := &vfRawTarget{name: name, w: w, probeOK: true, thinkMs: vfRawThinkMs}
 	rt.l = w.net.Listen(addr)
 	w.mu.Lock()
 	if w.raws == nil {
@@ -259,6 +291,18 @@ func (rt *vfRawTarget) seenCopy() []vfRawSeen {
 		}
 	}
 	return out
+}
+
+// vfRawThinkMs: a raw target answers 1 ms (virtual) after it has read the request. By then every goroutine of the
+// proxy has settled, in particular the transport has seen the end of the request body. A target that answers at
+// the very instant it has the last body byte races with that (see the C13 known finding); checks that want that
+// race ask for it explicitly.
+const vfRawThinkMs = 1
+
+func (rt *vfRawTarget) setThink(ms int) {
+	rt.mu.Lock()
+	rt.thinkMs = ms
+	rt.mu.Unlock()
 }
 
 var vfDefaultRawResponse = []vfRawStep{{Kind: "bytes", Data: "HTTP/1.1 200 OK\r\nContent-Length: 2\r\nX-Vf-Target: raw\r\n\r\nok"}}
@@ -331,6 +375,12 @@ func (rt *vfRawTarget) serve(c *vfConn) {
 		rt.mu.Unlock()
 		if script == nil {
 			script = vfDefaultRawResponse
+		}
+		rt.mu.Lock()
+		think := rt.thinkMs
+		rt.mu.Unlock()
+		if think > 0 && !rt.waitOrPeerClose(c, vfMs(think)) {
+			return
 		}
 		keep := rt.play(c, script, seen)
 		if !keep {
